@@ -114,10 +114,29 @@ def gen_case(seed, idx):
         name = "src/%s_io%d.f90" % (frng.choice(["aaa", "mmm", "zzzz"]), j)
         io.append({"file": name, "text": frng.choice(texts), "errno": frng.choice(["ENOENT", "EACCES", "EIO", "EMFILE"]),
                    "nth": frng.choice([1, 1, 2])})
-    return {"idx": idx, "world": w, "sets": sets, "io": io}
+    case = {"idx": idx, "world": w, "sets": sets, "io": io}
+    if idx % 10 == 3 and os.path.isdir("/repo/example/src"):
+        case["corpus"] = "example"
+        # the sets refer to generated file names: keep only those that do not depend on them
+        case["sets"] = [x for x in sets if not x.get("copy_of_valid")]
+        for x in case["sets"]:
+            x["files"] = {(k if not any(k.startswith(v[:-4]) for v in valid) else "src/mmm_" + os.path.basename(k)): c for k, c in x["files"].items()}
+            x["kinds"] = {(k if not any(k.startswith(v[:-4]) for v in valid) else "src/mmm_" + os.path.basename(k)): c for k, c in x["kinds"].items()}
+    return case
 
 
 def layout(case, seed):
+    if case.get("corpus") == "example":
+        # FORD's own example sources (types, interfaces, fixed form, ...) as the valid world
+        src = {}
+        top = "/repo/example/src"
+        for fn in sorted(os.listdir(top)):
+            if fn.endswith((".f90", ".f")) and os.path.isfile(os.path.join(top, fn)):
+                src["src/" + fn] = open(os.path.join(top, fn), encoding="utf-8").read()
+        files = {"p/" + k: v for k, v in src.items()}
+        files["p/proj.md"] = W.render_project_file(OPTIONS)
+        files["home/.keep"] = ""
+        return files, sorted("p/" + k for k in src)
     src = W.render_sources(case["world"], seeds.stream(seed, PROP, case["idx"], "render"))
     files = {"p/" + k: v for k, v in src.items()}
     files["p/proj.md"] = W.render_project_file(OPTIONS)
@@ -323,7 +342,7 @@ def world_task(seed, idx, tier, batch):
     r = evaluate(case, seed, workdir, full=(tier == "thorough" and idx % 4 == 0) or idx % 10 == 0)
     r["idx"] = idx
     s0 = case["sets"][0]
-    r["sample"] = {"valid_files": sorted(W.render_sources(case["world"], seeds.stream(seed, PROP, idx, "render"))),
+    r["sample"] = {"valid_files": layout(case, seed)[1],
                    "damaged_set_0": {n: (c if isinstance(c, dict) else c[:200]) for n, c in s0["files"].items()},
                    "kinds": s0["kinds"], "io": case["io"][:1]}
     seen = set()
@@ -347,7 +366,7 @@ def candidates(case):
                 del c["sets"][s_i]["files"][n]
                 del c["sets"][s_i]["kinds"][n]
                 yield "drop damaged file", c
-    for desc, w in W.shrink_candidates(case["world"]):
+    for desc, w in ([] if case.get("corpus") else W.shrink_candidates(case["world"])):
         if w["mods"] or w["progs"] or w["extprocs"]:
             c = copy.deepcopy(case)
             c["world"] = w
